@@ -964,6 +964,8 @@ class SgzReader(object):
         """
         if self.is_3d and not 0 <= index < self.n_ilines * self.n_xlines:
             raise IndexError(self.range_error.format(index, 0, self.tracecount))
+        if self.is_2d and not 0 <= index < self.tracecount:
+            raise IndexError(self.range_error.format(index, 0, self.tracecount - 1))
 
         header = self.segy_traceheader_template.copy()
 
